@@ -84,16 +84,16 @@ func (g *Generator) extractTopFiels(pkg *packages.Package, st *ast.StructType, t
 			continue
 		}
 		//named:
-		name := f.Names[0].Name
 		if f.Tag != nil {
 			tag := getMapTag(f.Tag.Value)
 			if tag == "-" {
 				continue
 			}
 			if tag != "" && tagMap != nil {
-				name = transfer.ToPascalCase(name)
 				tag = transfer.ToPascalCase(tag)
-				tagMap[name] = tag
+				for _, n := range f.Names { //A, B int `map:"X"`
+					tagMap[transfer.ToPascalCase(n.Name)] = tag
+				}
 			}
 		}
 		for _, name := range f.Names {
